@@ -14,14 +14,17 @@ import (
 	"os"
 	"path/filepath"
 	"regexp"
+	"strconv"
 	"strings"
+	"time"
 
 	"github.com/spf13/viper"
 	"github.com/usnistgov/dastard"
 )
 
 type c20Op struct {
-	kind     string // Q L B
+	kind     string // Q L T B
+	ts       int64  // T: the time stamp handed to AnySource.SetExperimentStateLabel
 	req      string
 	l22      bool
 	label    string
@@ -46,6 +49,8 @@ func (c *c20Case) input() string {
 			fmt.Fprintf(&sb, " Q %s %d", hexs([]byte(op.req)), b2i(op.l22))
 		case "L":
 			fmt.Fprintf(&sb, " L %s", hexs([]byte(op.label)))
+		case "T":
+			fmt.Fprintf(&sb, " T %d %s", op.ts, hexs([]byte(op.label)))
 		case "B":
 			fmt.Fprintf(&sb, " B %d %d %s", op.first, op.dropped, ints(op.ext))
 		}
@@ -53,14 +58,20 @@ func (c *c20Case) input() string {
 	return sb.String()
 }
 
-var c20StateLine = regexp.MustCompile(`^[0-9]+, (.*)$`)
+var c20StateLine = regexp.MustCompile(`^([0-9]+), (.*)$`)
+
+// Explicit time stamps are chosen outside any plausible wall-clock window: "past" ones around
+// 10^18 ns (2001), "future" ones around 4*10^18 ns (2096), and a few tiny ones.
+const c20Past, c20Future = int64(1000000000000000000), int64(4000000000000000000)
 
 // c20ReadRun reads the three side files that belong to a file pattern and renders them canonically:
 //
 //	X present hdr n v1..vn | P present hdr n (first dropped)* | T present hdr n line*
 //
-// where a state line is the hex of its label, or b<hex of the line> when it is not "<digits>, <label>".
-func c20ReadRun(pattern string) string {
+// where a state line is "<stamp> <hex of its label>", or b<hex of the line> when it is not
+// "<digits>, <label>"; <stamp> is w when the time stamp lies in the wall-clock window [t0, now] of
+// the case (the code stamped the line itself), else its decimal value.
+func c20ReadRun(pattern string, t0 int64) string {
 	var sb strings.Builder
 	// external triggers
 	if b, err := os.ReadFile(fmt.Sprintf(pattern, "external_trigger", "bin")); err != nil {
@@ -114,7 +125,11 @@ func c20ReadRun(pattern string) string {
 			fmt.Fprintf(&sb, " T 1 1 %d", len(body))
 			for _, ln := range body {
 				if m := c20StateLine.FindStringSubmatch(ln); m != nil {
-					fmt.Fprintf(&sb, " %s", hexs([]byte(m[1])))
+					stamp := m[1]
+					if v, err := strconv.ParseInt(m[1], 10, 64); err == nil && v >= t0 && v <= time.Now().UnixNano() {
+						stamp = "w"
+					}
+					fmt.Fprintf(&sb, " %s %s", stamp, hexs([]byte(m[2])))
 				} else {
 					fmt.Fprintf(&sb, " b%s", hexs([]byte(ln)))
 				}
@@ -126,6 +141,7 @@ func c20ReadRun(pattern string) string {
 
 func (c *c20Case) run() string {
 	dastard.VerifStartClientDrain()
+	wall0 := time.Now().UnixNano()
 	root := c06Workdir("c20", c.idx)
 	os.RemoveAll(root)
 	if err := os.MkdirAll(root, 0755); err != nil {
@@ -154,12 +170,15 @@ func (c *c20Case) run() string {
 			after := vs.ComputeWritingState()
 			if before.Active && !after.Active { // a run ended: read its files
 				patterns = append(patterns, before.FilenamePattern)
-				fmt.Fprintf(&sb, " RUN %s FD %d", c20ReadRun(before.FilenamePattern), c06OpenFds(root))
+				fmt.Fprintf(&sb, " RUN %s FD %d", c20ReadRun(before.FilenamePattern, wall0), c06OpenFds(root))
 			}
 		case "L":
 			cfg := dastard.StateLabelConfig{Label: op.label, WaitForError: true}
 			var reply bool
 			err := callRPC(sc, func() error { return sc.SetExperimentStateLabel(&cfg, &reply) })
+			fmt.Fprintf(&sb, " E %d", b2i(err != nil))
+		case "T": // the exported AnySource method, with the caller's own time stamp
+			err := vs.SetExperimentStateLabel(time.Unix(0, op.ts), op.label)
 			fmt.Fprintf(&sb, " E %d", b2i(err != nil))
 		case "B":
 			data := make([][]dastard.RawType, c.nch)
@@ -176,7 +195,7 @@ func (c *c20Case) run() string {
 	// the files of finished runs must not have changed since their STOP
 	fmt.Fprintf(&sb, " FINAL %d", len(patterns))
 	for _, p := range patterns {
-		fmt.Fprintf(&sb, " RUN %s", c20ReadRun(p))
+		fmt.Fprintf(&sb, " RUN %s", c20ReadRun(p, wall0))
 	}
 	var reply bool
 	stop := dastard.WriteControlConfig{Request: "STOP"}
@@ -198,7 +217,16 @@ func genC20(r *Rng, tier string, idx int) *c20Case {
 			{kind: "Q", req: "STOP"}, {kind: "B", nsamples: 8, first: 111, dropped: 2, ext: []int64{10}},
 			{kind: "Q", req: "START", l22: true}, {kind: "B", nsamples: 8, first: 121, ext: []int64{11}}, {kind: "Q", req: "STOP"}}}
 	}
+	if idx == 1 { // scripted: labels whose time stamps are older than / equal to / newer than the line before
+		return &c20Case{idx: idx, nch: 1, ops: []c20Op{
+			{kind: "Q", req: "START", l22: true}, {kind: "T", label: "A", ts: c20Past + 5}, {kind: "L", label: "B"},
+			{kind: "T", label: "C", ts: c20Past + 5}, {kind: "T", label: "D", ts: c20Past + 4}, {kind: "T", label: "E", ts: c20Future},
+			{kind: "L", label: "F"}, {kind: "Q", req: "UNPAUSE G"}, {kind: "T", label: "H", ts: c20Future - 1},
+			{kind: "T", label: "", ts: 0}, {kind: "Q", req: "STOP"},
+			{kind: "Q", req: "START", l22: true}, {kind: "T", label: "I", ts: 1}, {kind: "Q", req: "STOP"}}}
+	}
 	c := &c20Case{idx: idx, nch: r.Pick(1, 1, 2, 3)}
+	lastTs := c20Past + int64(r.Intn(1000))
 	nops := r.Range(1, 60)
 	if r.Chance(25) {
 		nops = r.Range(1, 10)
@@ -233,7 +261,7 @@ func genC20(r *Rng, tier string, idx int) *c20Case {
 				frame = op.first + int64(op.nsamples)
 			}
 			c.ops = append(c.ops, op)
-		case x < 70: // a state label
+		case x < 74: // a state label
 			lab := c20Label(r)
 			if r.Chance(8) {
 				lab = ""
@@ -241,7 +269,26 @@ func genC20(r *Rng, tier string, idx int) *c20Case {
 			if r.Chance(5) { // not a single line
 				lab = []string{"two\nlines", "x\n", "\n", "a\r\nb", "cr\rcr"}[r.Intn(5)]
 			}
-			if r.Chance(50) {
+			if r.Chance(45) { // a caller-supplied time stamp: earlier than, equal to, later than the one before
+				switch r.Intn(8) {
+				case 0, 1:
+					lastTs -= int64(r.Range(1, 1000))
+				case 2:
+					// equal
+				case 3, 4:
+					lastTs += int64(r.Range(1, 1000))
+				case 5:
+					lastTs = c20Future + int64(r.Intn(1000)) // newer than every clock-stamped line
+				case 6:
+					lastTs = c20Past + int64(r.Intn(1000)) // older than every clock-stamped line
+				default:
+					lastTs = int64(r.Pick(0, 1, 12345))
+				}
+				if lastTs < 0 {
+					lastTs = 0
+				}
+				c.ops = append(c.ops, c20Op{kind: "T", label: lab, ts: lastTs})
+			} else if r.Chance(50) {
 				c.ops = append(c.ops, c20Op{kind: "L", label: lab})
 			} else if lab != "" {
 				c.ops = append(c.ops, c20Op{kind: "Q", req: c06ReqString(r, "UNPAUSE") + " " + lab, l22: r.Bool()})
